@@ -75,11 +75,12 @@ AcyclicT   == ~Cyclic
 
 (* names of the property-level invariants that are false in the current state *)
 Failing ==
-   {n \in {"C01_DepsFinal", "C01_PayloadVisible", "C01_RunningState", "C02_AtMostOnce", "C02_Outcome",
+   {n \in {"C01_DepsFinal", "C01_PayloadVisible", "C01_RunningState", "C01_NoLateDep", "C02_AtMostOnce", "C02_Outcome",
            "C02_NoForeignUpdate", "C02_SoftNeverSkips", "C02_FromEmptyNeverRaises", "C03_Clean", "C03_NotTerminated"} :
       CASE n = "C01_DepsFinal"       -> ~C01_DepsFinal
         [] n = "C01_PayloadVisible"  -> ~C01_PayloadVisible
         [] n = "C01_RunningState"    -> ~C01_RunningState
+        [] n = "C01_NoLateDep"       -> ~C01_NoLateDep
         [] n = "C02_AtMostOnce"      -> EmptyInitT /\ ~C02_AtMostOnce
         [] n = "C02_Outcome"         -> EmptyInitT /\ AcyclicT /\ ~C02_Outcome
         [] n = "C02_NoForeignUpdate" -> ~C02_NoForeignUpdate
